@@ -82,8 +82,8 @@ func validateTDXMetadataSections(firmwareLen uint32, rawMetadata *abi.TDXMetadat
 		return fmt.Errorf("TDX metadata descriptor version mismatch. Got 0x%x want 0x%x",
 			rawMetadata.Header.Version, abi.TDXMetadataVersion)
 	}
-	expectedLength := abi.SizeofTDXMetadataDescriptor + abi.SizeofTDXMetdataSection*rawMetadata.Header.SectionCount
-	if rawMetadata.Header.Length != expectedLength {
+	expectedLength := abi.SizeofTDXMetadataDescriptor + abi.SizeofTDXMetdataSection*uint64(rawMetadata.Header.SectionCount)
+	if uint64(rawMetadata.Header.Length) != expectedLength {
 		return fmt.Errorf("TDX metadata descriptor length mismatch. Got 0x%x want 0x%x",
 			rawMetadata.Header.Length, expectedLength)
 	}
